@@ -1079,6 +1079,98 @@ def c20_all(mir, ctx):
     return c20_groups(mir, ctx) + c20_columns_group(mir, ctx)
 
 
+# --------------------------------------------------------------------------
+# C11: the base-64 alphabet of stream-name packing (to_b64 / from_b64, loop-free)
+# --------------------------------------------------------------------------
+
+def _c11_confirm(model, native):
+    out = native("native::c11::replay_c11", {k: v for k, v in model.items() if k in ("c", "v")})
+    if not out.get("_ran"):
+        return None, "native replay did not run"
+    if out.get("_panicked"):
+        return True, "encode/decode panicked natively: %s" % out.get("_panic_msg")
+    return (out.get("differs") == 1), str(out.get("witness") or "encode/decode round trip is fine natively")
+
+
+def c11_b64_group(mir, ctx):
+    def rng(lo, hi):
+        return lambda ex, callee, args, pc, events: [(pc, events, BoolV("(and (>= %s %d) (<= %s %d))" % (deref(args[0]).term, lo, deref(args[0]).term, hi)))]
+
+    def m_from_u32(ex, callee, args, pc, events):
+        v = deref(args[0])
+        valid = "(and (>= %s 0) (<= %s 1114111) (not (and (>= %s 55296) (<= %s 57343))))" % (v.term, v.term, v.term, v.term)
+        return [(pc + [valid], events, EnumV(variant=1, fields=[IntV(v.term, "char", v.const)])),
+                (pc + [s_not(valid)], events, EnumV(variant=0, fields=[]))]
+
+    def m_unwrap(ex, callee, args, pc, events):
+        o = deref(args[0])
+        if o.variant == 1:
+            return [(pc, events, o.fields[0])]
+        return [(pc, events, Outcome("panic", pc, msg="unwrap on None (char::from_u32 refused the value)", events=events))]
+
+    models = [(r"impl char>::is_ascii_digit$", rng(48, 57)), (r"impl char>::is_ascii_uppercase$", rng(65, 90)),
+              (r"impl char>::is_ascii_lowercase$", rng(97, 122)), (r"(^|::)from_u32$", m_from_u32), (r"Option::<char>::unwrap$", m_unwrap)]
+    g = Group("b64_alphabet", ["streamname::to_b64", "streamname::from_b64"], confirm=_c11_confirm,
+              note="the 64-symbol alphabet of stream-name packing is a bijection: for every char c, to_b64(c) = Some(v) implies v < 64 and "
+                   "from_b64(v) = c; for every v < 64, to_b64(from_b64(v)) = Some(v); exactly [0-9A-Za-z._] are packable; no panic")
+    to_fn, from_fn = mir.find(r"^to_b64$"), mir.find(r"^from_b64$")
+    c = ctx.fresh_int("c", None, 0, 0x10FFFF)
+    ctx.side.append("(not (and (>= %s 55296) (<= %s 57343)))" % (c.term, c.term))
+    cv = IntV(c.term, "char")
+    packable = s_or(["(and (>= %s %d) (<= %s %d))" % (c.term, lo, c.term, hi) for lo, hi in ((48, 57), (65, 90), (97, 122), (46, 46), (95, 95))])
+    ex = M.Exec(mir, ctx, models=models)
+    outs = ex.run(to_fn, [cv]) + ex._pending_panics
+    ex._pending_panics = []
+    for k, o in enumerate(outs):
+        if o.kind == "panic":
+            g.queries.append(Query("to_panic_%d" % k, o.pc, "unsat", get={"c": c.term}, note=o.msg))
+            continue
+        if o.kind != "return":
+            continue
+        opt = deref(o.value)
+        if opt.variant in (0, "None"):
+            g.queries.append(Query("to_none_packable_%d" % k, o.pc + [packable], "unsat", get={"c": c.term}, note="a character of [0-9A-Za-z._] is not packable"))
+        else:
+            v = opt.fields[0]
+            g.queries.append(Query("to_some_unpackable_%d" % k, o.pc + [s_not(packable)], "unsat", get={"c": c.term}, note="a character outside [0-9A-Za-z._] is packed"))
+            g.queries.append(Query("to_range_%d" % k, o.pc + ["(not (and (>= %s 0) (< %s 64)))" % (v.term, v.term)], "unsat", get={"c": c.term}, note="to_b64 gives a value outside 0..63"))
+            ex2 = M.Exec(mir, ctx, models=models)
+            for o2 in ex2.run(from_fn, [IntV(v.term, "u32")], o.pc) + ex2._pending_panics:
+                if o2.kind == "panic":
+                    g.queries.append(Query("from_to_panic_%d" % len(g.queries), o2.pc, "unsat", get={"c": c.term}, note=o2.msg))
+                elif o2.kind == "return":
+                    g.queries.append(Query("from_to_%d" % len(g.queries), o2.pc + ["(not (= %s %s))" % (deref(o2.value).term, c.term)], "unsat",
+                                           get={"c": c.term}, note="from_b64(to_b64(c)) differs from c"))
+                    g.witness.append(Query("ft_w_%d" % len(g.witness), o2.pc, "sat"))
+    v = ctx.fresh_int("v", None, 0, 63)
+    ex = M.Exec(mir, ctx, models=models)
+    for o in ex.run(from_fn, [IntV(v.term, "u32")]) + ex._pending_panics:
+        if o.kind == "panic":
+            g.queries.append(Query("from_panic_%d" % len(g.queries), o.pc, "unsat", get={"v": v.term}, note=o.msg))
+            continue
+        if o.kind != "return":
+            continue
+        ch = deref(o.value)
+        ex2 = M.Exec(mir, ctx, models=models)
+        for o2 in ex2.run(to_fn, [IntV(ch.term, "char", ch.const)], o.pc) + ex2._pending_panics:
+            if o2.kind == "panic":
+                g.queries.append(Query("to_from_panic_%d" % len(g.queries), o2.pc, "unsat", get={"v": v.term}, note=o2.msg))
+            elif o2.kind == "return":
+                opt = deref(o2.value)
+                if opt.variant in (0, "None"):
+                    g.queries.append(Query("to_from_none_%d" % len(g.queries), o2.pc, "unsat", get={"v": v.term}, note="to_b64(from_b64(v)) is None"))
+                else:
+                    g.queries.append(Query("to_from_%d" % len(g.queries), o2.pc + ["(not (= %s %s))" % (opt.fields[0].term, v.term)], "unsat",
+                                           get={"v": v.term}, note="to_b64(from_b64(v)) differs from v"))
+                    g.witness.append(Query("tf_w_%d" % len(g.witness), o2.pc, "sat"))
+    return [g]
+
+
+def c11_all(mir, ctx):
+    from .mir_protocol import protocol_groups
+    return c11_b64_group(mir, ctx) + protocol_groups(mir, ctx, {"reject"})
+
+
 def _proto(which):
     def build(mir, ctx):
         from .mir_protocol import protocol_groups
@@ -1088,7 +1180,7 @@ def _proto(which):
 
 BUILDERS = {"C18": c18_groups, "C19": c19_groups, "C14": c14_groups, "C20": c20_all, "C09": c20_groups,
             "C01": _proto({"mutators", "finish", "close"}), "C10": _proto({"mutators", "finish"}),
-            "C15": _proto({"finish", "close"}), "C16": _proto({"readonly"}), "C08": _proto({"drop_table"}), "C04": _proto({"reject"})}
+            "C15": _proto({"finish", "close"}), "C16": _proto({"readonly"}), "C08": _proto({"drop_table"}), "C04": _proto({"reject"}), "C11": c11_all}
 
 
 def native_confirm_c18(vals, work):
